@@ -15,7 +15,7 @@ func cmdSelfcheck() int {
 			bad++
 			continue
 		}
-		p := NewPath(nil, s)
+		p := NewPath(WorkItem{}, s)
 		x := p.NewInput("x", "uint64", SBV(64)).T
 		y := p.NewInput("y", "uint64", SBV(64)).T
 		// commutativity of the label hash combiner step must be unsat when negated
